@@ -12,7 +12,7 @@ use serde_json::{json, Value};
 pub fn meta() -> Meta {
     Meta {
         level: "exploration",
-        rule: "(a) every malformed lexeme of 35 spellings in 8 classes spliced at every position of every sequence of at most 2 tokens over the full token alphabet (unterminated forms only last); (b,c) every sequence of at most 3 tokens over the token alphabet with text-dependent and malformed variants, through parse_check_lex and the full pipeline; each case enumerated once; non-trivial = splice cases with at least one neighbouring token, pipeline cases with at least one statement node; outcomes = distinct (gating decision, diagnostic counts) observations",
+        rule: "(a) every malformed lexeme generated from the reference definition of its class (unterminated strings and bit strings over 9 body atoms up to 2 atoms, unterminated nested block comments up to 3 atoms, base prefixes without digits, exponent markers without digits over 7 mantissas x sign x underscores, malformed version headers, identifiers with a forbidden character) spliced at every position of every sequence of at most 2 tokens over the full token alphabet (unterminated forms only last); (b,c) every sequence of at most 3 tokens over the token alphabet with text-dependent and malformed variants, through parse_check_lex and the full pipeline; each case enumerated once; non-trivial = splice cases with at least one neighbouring token, pipeline cases with at least one statement node; outcomes = distinct (gating decision, diagnostic counts) observations",
         assumptions: vec![
             "pipeline cases on which semantic analysis panics are C03's business and are skipped here (counted)",
             "the bare word OPENQASM (no white space after it) is a keyword for the lexer, so only header forms with white space count as malformed version headers",
@@ -20,45 +20,102 @@ pub fn meta() -> Meta {
     }
 }
 
-/// (spelling, class, must be last)
-pub fn malformed() -> Vec<(&'static str, &'static str, bool)> {
-    vec![
-        ("\"abc", "unterminated_string", true),
-        ("'abc", "unterminated_string", true),
-        ("\"a\\\"", "unterminated_string", true),
-        ("\"01", "unterminated_bitstring", true),
-        ("'01", "unterminated_bitstring", true),
-        ("\"0_1", "unterminated_bitstring", true),
-        ("\"0__1", "unterminated_bitstring", true),
-        ("'1__", "unterminated_bitstring", true),
-        ("\"", "unterminated_string", true),
-        ("/* c", "unterminated_comment", true),
-        ("/* /* c */", "unterminated_comment", true),
-        ("/*", "unterminated_comment", true),
-        ("0b", "empty_int", false),
-        ("0o", "empty_int", false),
-        ("0x", "empty_int", false),
-        ("0b_", "empty_int", false),
-        ("0x_", "empty_int", false),
-        ("0o__", "empty_int", false),
-        ("1e", "empty_exponent", false),
-        ("1e+", "empty_exponent", false),
-        ("1.5e", "empty_exponent", false),
-        (".5e", "empty_exponent", false),
-        ("1E-", "empty_exponent", false),
-        ("1e_", "empty_exponent", false),
-        ("OPENQASM x", "version_header", false),
-        ("OPENQASM 3.", "version_header", false),
-        ("OPENQASM 3.x", "version_header", false),
-        ("OPENQASM 3x", "version_header", false),
-        ("OPENQASM .5", "version_header", false),
-        ("OPENQASM ;", "version_header", false),
-        ("a😀", "bad_identifier", false),
-        ("😀", "bad_identifier", false),
-        ("😀a", "bad_identifier", false),
-        ("x_😀_y", "bad_identifier", false),
-        ("#x", "bad_identifier", false),
-    ]
+/// The malformed lexemes, generated from a reference definition of each class over a small
+/// alphabet: (spelling, class, must be last).  `depth` bounds the length of the generated part.
+pub fn malformed_gen(depth: usize) -> Vec<(String, &'static str, bool)> {
+    fn words(atoms: &[&str], max_len: usize) -> Vec<String> {
+        let mut out = vec![String::new()];
+        let mut layer = vec![String::new()];
+        for _ in 0..max_len {
+            let mut next = Vec::new();
+            for w in &layer {
+                for a in atoms {
+                    next.push(format!("{}{}", w, a));
+                }
+            }
+            out.extend(next.iter().cloned());
+            layer = next;
+        }
+        out
+    }
+    let mut v: Vec<(String, &'static str, bool)> = Vec::new();
+    // unterminated strings: an opening quote and a body without an unescaped closing quote
+    // (a backslash escapes a following backslash or quote of the same kind)
+    for (q, other) in [("\"", "'"), ("'", "\"")] {
+        let escaped_quote = format!("\\{}", q);
+        let atoms: Vec<&str> = vec!["a", "0", "1", "_", "\\\\", &escaped_quote, other, " ", "é"];
+        for body in words(&atoms, depth) {
+            let bits = !body.is_empty() && body.chars().all(|c| c == '0' || c == '1' || c == '_');
+            v.push((format!("{}{}", q, body), if bits { "unterminated_bitstring" } else { "unterminated_string" }, true));
+        }
+    }
+    // unterminated block comments (comments nest): the depth never returns to 0
+    for body in words(&["/*", "*/", "c", "*", "/", " "], depth + 1) {
+        let text = format!("/*{}", body);
+        let b = text.as_bytes();
+        let (mut i, mut d, mut closed) = (0usize, 0i32, false);
+        while i < b.len() {
+            if i + 1 < b.len() && b[i] == b'/' && b[i + 1] == b'*' {
+                d += 1;
+                i += 2;
+            } else if i + 1 < b.len() && b[i] == b'*' && b[i + 1] == b'/' {
+                d -= 1;
+                i += 2;
+                if d == 0 {
+                    closed = true;
+                    break;
+                }
+            } else {
+                i += 1;
+            }
+        }
+        if !closed && d > 0 {
+            v.push((text, "unterminated_comment", true));
+        }
+    }
+    // integers with a base prefix and no digits (lower-case prefixes: the upper-case ones are
+    // a recorded finding, see `uppercase_empty_int`)
+    for p in ["0b", "0o", "0x"] {
+        for u in ["", "_", "__"] {
+            v.push((format!("{}{}", p, u), "empty_int", false));
+        }
+    }
+    for p in ["0B", "0O", "0X"] {
+        for u in ["", "_"] {
+            v.push((format!("{}{}", p, u), "uppercase_empty_int", false));
+        }
+    }
+    // floats with an exponent marker and no digit after it
+    for m in ["1", "0", "1.5", "1.", ".5", "10_0", "1_0.0_1"] {
+        for e in ["e", "E"] {
+            for sign in ["", "+", "-"] {
+                for u in ["", "_", "__"] {
+                    v.push((format!("{}{}{}{}", m, e, sign, u), "empty_exponent", false));
+                }
+            }
+        }
+    }
+    // malformed version headers
+    for ws in [" ", "  "] {
+        for bad in ["x", "3.", "3.x", "3x", ".5", ";"] {
+            v.push((format!("OPENQASM{}{}", ws, bad), "version_header", false));
+        }
+    }
+    // identifiers containing a forbidden character
+    for w in words(&["a", "_", "0", "😀"], depth + 1) {
+        let first = w.chars().next();
+        if w.contains('😀') && first != Some('0') {
+            v.push((w, "bad_identifier", false));
+        }
+    }
+    v.push(("#x".into(), "bad_identifier", false));
+    v.sort();
+    v.dedup();
+    v
+}
+
+pub fn malformed() -> Vec<(String, &'static str, bool)> {
+    malformed_gen(2)
 }
 
 pub struct Splice {
@@ -67,6 +124,60 @@ pub struct Splice {
 
 impl Splice {
     fn check(&self, text: &str, lo: usize, hi: usize, class: &str, ctx: &mut Ctx) {
+        check_malformed(text, lo, hi, class, ctx)
+    }
+}
+
+/// Malformed lexemes generated one level deeper, each alone and after one ordinary token.
+pub struct Alone {
+    pub depth: usize,
+}
+
+impl Alone {
+    fn cases(&self) -> Vec<(String, &'static str, bool)> {
+        malformed_gen(self.depth)
+    }
+}
+
+impl Space for Alone {
+    fn name(&self) -> String {
+        format!("MALFORMED/alone/depth={}", self.depth)
+    }
+    fn describe(&self) -> Value {
+        json!({"space": "MALFORMED alone", "depth": self.depth, "spellings": self.cases().len(), "forms": ["alone", "after `x `", "after `3 `"]})
+    }
+    fn num_blocks(&self) -> u64 {
+        (self.cases().len() as u64 + 255) / 256
+    }
+    fn run_block(&self, block: u64, ctx: &mut Ctx) {
+        let cases = self.cases();
+        let lo_i = block as usize * 256;
+        for (m, class, _) in cases.iter().skip(lo_i).take(256) {
+            for pre in ["", "x ", "3 "] {
+                let text = format!("{}{}", pre, m);
+                let (lo, hi) = (pre.len(), text.len());
+                if ctx.begin(|| json!({"text": text, "lo": lo, "hi": hi, "class": class})) {
+                    if !pre.is_empty() {
+                        ctx.mark_nontrivial(fnv_str(&text));
+                    }
+                    check_malformed(&text, lo, hi, class, ctx);
+                }
+            }
+        }
+    }
+    fn replay(&self, case: &Value, ctx: &mut Ctx) {
+        let text = case["text"].as_str().unwrap_or("");
+        let lo = case["lo"].as_u64().unwrap_or(0) as usize;
+        let hi = case["hi"].as_u64().unwrap_or(0) as usize;
+        ctx.begin(|| case.clone());
+        if lo <= hi && hi <= text.len() {
+            check_malformed(text, lo, hi, case["class"].as_str().unwrap_or(""), ctx);
+        }
+    }
+}
+
+fn check_malformed(text: &str, lo: usize, hi: usize, class: &str, ctx: &mut Ctx) {
+    {
         let r = catch(|| {
             let lexed = LexedStr::new(text);
             let hits: Vec<(usize, usize, String)> = lexed
@@ -103,7 +214,7 @@ impl Space for Splice {
         format!("SPLICE/{}", self.e.name)
     }
     fn describe(&self) -> Value {
-        json!({"space": "SPLICE", "malformed": malformed().iter().map(|m| m.0).collect::<Vec<_>>(), "base": self.e.describe()["cardinality_upper_bound"], "positions": "every gap, including both ends"})
+        json!({"space": "SPLICE", "malformed_spellings": malformed().len(), "malformed_sample": malformed().iter().step_by(37).map(|m| m.0.clone()).collect::<Vec<_>>(), "base": self.e.describe()["cardinality_upper_bound"], "positions": "every gap, including both ends"})
     }
     fn num_blocks(&self) -> u64 {
         self.e.num_blocks()
@@ -265,6 +376,7 @@ pub fn spaces(tier: Tier, _seed: u64) -> Vec<Box<dyn Space>> {
     if let Ok(e) = c01::etok(false, 2, Render::Spaced) {
         v.push(Box::new(Splice { e }));
     }
+    v.push(Box::new(Alone { depth: if tier.is_thorough() { 4 } else { 3 } }));
     v.push(crate::props::c01::tok_space(true, if tier.is_thorough() { 3 } else { 2 }, Render::Spaced, gating_oracle));
     v.push(crate::props::c01::tok_space(false, 3, Render::Tight, gating_oracle));
     v
